@@ -67,7 +67,11 @@ RTOk(s) == /\ ~(DOMAIN s \cap Only2020 # {} /\ DOMAIN s \cap OnlyD7 # {})
            /\ ~({"defs", "definitions"} \subseteq DOMAIN s)
            /\ ~({"depSchemas", "depStrings"} \subseteq DOMAIN s /\ DOMAIN s.depSchemas \cap DOMAIN s.depStrings # {})
 RTPairs == {x[1] @@ x[2] : x \in {y \in RTAtoms \X RTAtoms : DOMAIN y[1] \cap DOMAIN y[2] = {} /\ RTOk(y[1] @@ y[2])}}
-RTNested == {[properties |-> [a |-> a]] : a \in RTAtoms} \cup {[items |-> a] : a \in RTAtoms} \cup {[allOf |-> <<a>>] : a \in RTAtoms}
+\* "not": {} (the falsy form) next to other keywords: only the schema that is EXACTLY {"not": true} is written false
+RTNotSibs == {[not |-> TrueS] @@ a : a \in {[title |-> "t"], [defs |-> [x |-> IntS]], [extra |-> [x |-> Num(R_1)]], [default |-> Null],
+                                           [type |-> "number"], [properties |-> [a |-> IntS]], [anchor |-> "a"], [comment |-> "t"],
+                                           [definitions |-> [x |-> TrueS]], [minimum |-> R_0], [deprecated |-> TRUE]}}
+RTNested == {[properties |-> [a |-> a]] : a \in RTAtoms \cup RTNotSibs} \cup RTNotSibs \cup {[properties |-> [a |-> a]] : a \in RTAtoms} \cup {[items |-> a] : a \in RTAtoms} \cup {[allOf |-> <<a>>] : a \in RTAtoms}
 RTValues(z) == IF K >= 2 THEN UNION {RTAtoms, RTPairs, RTNested} ELSE UNION {RTAtoms, RTNested}
 RTInsts == <<Null, Num(R_0), Num(R_1), Num(R_3), Num(R_h), Str(""), Str("a"), Str("ab"), Bool(FALSE), EmptyArr, Arr(<<Num(R_1)>>),
              Arr(<<Num(R_1), Num(R_1)>>), Arr(<<Str("a"), Num(R_3), Num(R_1)>>), EmptyObj, Obj([a |-> Num(R_1)]), Obj([a |-> Str("a"), b |-> Num(R_1)]),
@@ -158,6 +162,11 @@ RDCases == {
   [doc |-> "{\"minContains\":0,\"contains\":{\"const\":null}}", norm |-> "{\"minContains\":0,\"contains\":{\"const\":null}}"],
   [doc |-> "{\"title\":\"\",\"description\":\"\",\"format\":\"\"}", norm |-> "true"],
   \* unknown keywords are kept verbatim, whatever they resemble (letter case, Unicode case folding)
+  [doc |-> "{\"not\":{},\"title\":\"t\"}", norm |-> "{\"not\":true,\"title\":\"t\"}"],
+  [doc |-> "{\"not\":{},\"x-reason\":\"closed\"}", norm |-> "{\"not\":true,\"x-reason\":\"closed\"}"],
+  [doc |-> "{\"properties\":{\"a\":{\"$ref\":\"#/$defs/closed/$defs/str\"}},\"$defs\":{\"closed\":{\"not\":{},\"$defs\":{\"str\":{\"type\":\"string\"}}}}}",
+   norm |-> "{\"properties\":{\"a\":{\"$ref\":\"#/$defs/closed/$defs/str\"}},\"$defs\":{\"closed\":{\"not\":true,\"$defs\":{\"str\":{\"type\":\"string\"}}}}}"],
+  [doc |-> "{\"not\":{\"not\":{}}}", norm |-> "{\"not\":false}"],
   [doc |-> "{\"Type\":\"string\"}", norm |-> "{\"Type\":\"string\"}"],
   [doc |-> "{\"ITEMS\":false,\"items\":true}", norm |-> "{\"ITEMS\":false,\"items\":true}"],
   [doc |-> "{\"item\\u017f\":{\"type\":\"string\"}}", norm |-> "{\"item\\u017f\":{\"type\":\"string\"}}"],
